@@ -7,6 +7,7 @@ EXTENDS PathSpec
 CONSTANTS Points,     \* set of path points <<x, y, z, d>>
           MaxLen,     \* paths of 1..MaxLen points
           Factors,
+          ComposeWith, \* second factors for the composition law
           LatA,
           NodePaths,  \* additional inputs: paths produced by FromNodes
           RefineAcrossBreaks   \* FALSE: the code; TRUE: a plausible wrong variant that sub-divides the step over a break too
@@ -58,7 +59,7 @@ LoopIsOperator == Done => r = Refined(P, f)
 InvKeeps == Done => /\ KeepsPoints(P, f, r) /\ KeepsLabels(P, f, r) /\ KeepsBreaks(P, f, r) /\ RefLength(P, f, r)
                     /\ RefUniform(P, f, r) /\ RefNoBreaks(P, f, r) /\ PathOK(r)
 InvIdentity == Done /\ f = 1 => SamePath(P, r)
-InvCompose == Done => \A g \in Factors : SamePath(Refined(r, g), Refined(P, f * g))
+InvCompose == Done => \A g \in ComposeWith : SamePath(Refined(r, g), Refined(P, f * g))
 (* C29, path coordinate *)
 InvKline == Done /\ KlineOK(P) => /\ KlineOK(r) /\ KlineMonotone(r, LatA) /\ KlineFlatAtBreaks(r, LatA) /\ KlineIsDistance(r, LatA)
                                  /\ KlineRefined(P, f, r, LatA) /\ ~ThreshTie(r, LatA, THR2)
